@@ -26,7 +26,20 @@ class _ClassParse(Contract):
         cls, wire, markers = p['cls'], p['wire'], p.get('markers')
         if not isinstance(wire, View):
             cx.it.raise_(TypeError, 'a bytes-like object is required', node=node)
-        return parse_model(cx.it, cls, wire, markers if markers is not None else {}, node)
+        return parse_model(cx.it, cls, wire, markers if markers is not None else {}, node, p.get('ignore_critical', False))
+
+
+def strict_rule(cx, cls):
+    """every parse of the packet model `cls` this decoder asked for was asked under the strict critical-bit rule
+    (ignore_critical False): with the contract of TlvModel.parse an unrecognised, repeated or out-of-order critical element then
+    is a DecodeError"""
+    calls = [ic for k, ic in cx.run.ghost.get('parse.rule', []) if k is cls]
+    return len(calls) >= 1 and all(ic is False for ic in calls)
+
+
+def summarised_strict(cx, cls):
+    """used by result(): a summarised decoder call stands for a strict parse of its packet model"""
+    cx.run.ghost.setdefault('parse.rule', []).append((cls, False))
 
 
 @contract
@@ -77,6 +90,7 @@ class parse_data(_ParseFn):
     def post(c, cx, result, wire, with_tl):
         name, meta, content, sig = result
         out = {'mandatory_name_present': isinstance(name, BufSeq),
+               'parsed_under_the_strict_critical_rule': strict_rule(cx, nf.DataPacketValue),
                'meta_info_is_model': isinstance(meta, (LazyParsed, SymObj)),
                'content_in_wire': content is None or (isinstance(content, View) and Eq(content.cell, wire.cell) is True)}
         return out
@@ -84,6 +98,7 @@ class parse_data(_ParseFn):
     def result(c, cx, wire, with_tl):
         from contracts.parse_summary import sub_view
         run = cx.run
+        summarised_strict(cx, nf.DataPacketValue)
         name = BufSeq.fresh(run, 'name', 'memoryview')
         ck = run.choose([('content=None', True), ('content', True)], 'content')
         content = None if ck == 'content=None' else sub_view(run, wire, 'content')
@@ -102,6 +117,7 @@ class parse_interest(_ParseFn):
     def post(c, cx, result, wire, with_tl):
         name, params, app_param, sig = result
         return {'mandatory_name_present': isinstance(name, BufSeq),
+                'parsed_under_the_strict_critical_rule': strict_rule(cx, nf.InterestPacketValue),
                 # declaration lemma (ground fact of the live classes): no element of an Interest is parsed under a relaxed
                 # critical-bit rule, so with the contracts of TlvModel.parse (unrecognised critical element -> DecodeError
                 # unless ignore_critical) and ModelField.parse_from (declared flag handed down) every unrecognised,
@@ -113,6 +129,7 @@ class parse_interest(_ParseFn):
     def result(c, cx, wire, with_tl):
         from contracts.parse_summary import sub_view
         run = cx.run
+        summarised_strict(cx, nf.InterestPacketValue)
         name = BufSeq.fresh(run, 'name', 'memoryview')
         ak = run.choose([('app_param=None', True), ('app_param', True)], 'app_param')
         app_param = None if ak == 'app_param=None' else sub_view(run, wire, 'app_param')
@@ -369,8 +386,10 @@ class parse_certificate(Contract):
     fn = sv.parse_certificate
     props = ('C07', 'C16')
     doc = ('parse_certificate raises only documented decoding errors (Type must be Data, lengths must agree, the mandatory Name must be '
-           'present); what it returns is a CertificateV2Value read from this wire that has a Name')
+           'present); what it returns is a CertificateV2Value read from this wire that has a Name, parsed under the strict critical-bit rule')
     raises = {e: (lambda cx, wire: True) for e in DOCUMENTED}
+    # C16 speaks of issued certificates only (those parse the same under either rule); which packets are refused is C07's
+    clause_props = {'parsed_under_the_strict_critical_rule': ('C07',)}
 
     def setup(self, cx):
         return dict(wire=cx.run.input_buf('wire', 'bytes'))
@@ -380,7 +399,8 @@ class parse_certificate(Contract):
 
     def post(c, cx, result, wire):
         ok = isinstance(result, LazyParsed)
-        out = {'returns_a_certificate_value': ok and result.cls is sv.CertificateV2Value}
+        out = {'returns_a_certificate_value': ok and result.cls is sv.CertificateV2Value,
+               'parsed_under_the_strict_critical_rule': strict_rule(cx, sv.CertificateV2Value)}
         if ok:
             out['mandatory_name_present'] = result.getattr_(cx.it, '__dict__', None).contains(cx.it, 'name', None)
         return out
